@@ -12,8 +12,8 @@ import time
 from . import core
 
 KNOWN_FILE = os.path.join(core.VERIF, "KNOWN_FINDINGS.txt")
-EVID_DIR = os.path.join(core.VERIF, "evidence")
-REPLAY_DIR = os.path.join(core.VERIF, "replays")
+EVID_DIR = os.environ.get("SVMC_EVID_DIR") or os.path.join(core.VERIF, "evidence")
+REPLAY_DIR = os.path.join(os.environ["SVMC_EVID_DIR"], "replays") if os.environ.get("SVMC_EVID_DIR") else os.path.join(core.VERIF, "replays")
 ALL = [f"C{i:02d}" for i in range(1, 21)]
 
 CAPS = {"quick": 15 * 60, "thorough": 3 * 3600}
